@@ -47,6 +47,19 @@ int main() {
     }
     for (int m = 0; m < 2; ++m) if (seenLo[m] != 1 || seenHi[m] != 1) { printf("dim %d: member %d is not held between the two boundary variables\n", d, m); bad++; }
   }
+  // exemptions: declaring (0,1) exempt must not exempt (0,2): both overlapping pairs (0,2) and (1,2) still get their separation
+  {
+    vpsc::Rectangles xs; for (int i = 0; i < 3; ++i) xs.push_back(new vpsc::Rectangle(2.0 * i, 2.0 * i + 10, 0, 10));
+    NonOverlapConstraintExemptions ex; std::vector<std::vector<unsigned> > groups(1); groups[0].push_back(0); groups[0].push_back(1); ex.addExemptGroupOfNodes(groups);
+    NonOverlapConstraints noc(&ex, 1000);
+    for (unsigned i = 0; i < 3; ++i) noc.addShape(i, 5, 5);
+    vpsc::Variables vs; vpsc::Constraints cs; for (int i = 0; i < 3; ++i) vs.push_back(new vpsc::Variable(i, 0));
+    noc.generateSeparationConstraints(vpsc::XDIM, vs, cs, xs);
+    bool has02 = false, has12 = false, has01 = false;
+    for (size_t k = 0; k < cs.size(); ++k) { int a = cs[k]->left->id, b = cs[k]->right->id; if (a > b) { int t = a; a = b; b = t; }
+      if (a == 0 && b == 2) has02 = true; if (a == 1 && b == 2) has12 = true; if (a == 0 && b == 1) has01 = true; }
+    if (!has02 || !has12 || has01) { printf("exemption group {0,1}: separations generated for (0,2): %d, (1,2): %d, (0,1): %d -- expected 1, 1, 0\n", has02, has12, has01); bad++; }
+  }
   // nested clusters: the child's two boundary variables are held inside the parent's, in both dimensions
   {
     vpsc::Rectangles nb; nb.push_back(new vpsc::Rectangle(0, 10, 0, 10)); nb.push_back(new vpsc::Rectangle(30, 40, 30, 40));
@@ -258,6 +271,16 @@ def jobs(tier):
                   domain="one arbitrary pair of plain shapes (neither stands for a cluster), both dimensions, all doubles; Rectangle::getCentreD/overlapD behind contracts (uninterpreted)",
                   expect=[r'h_pair\.assertion'],
                   note="plain harness: three variables/rectangles with symbolic contents, any two distinct indices among them, a constraint list with 0..3 earlier entries"))
+    # ---------------- ShapePair: the key of the exemption set.  Two pairs are the same key only if they are the same unordered pair of indices
+    # (std::set treats a and b as equal when neither a<b nor b<a), so an undeclared pair can never be taken for a declared exempt one
+    spc = slice_block("libcola/shapepair.h", r'^class ShapePair\n\{', "class ShapePair")
+    spk = slice_func("libcola/shapepair.cpp", r'^ShapePair::ShapePair\(unsigned ind1, unsigned ind2\)', "ShapePair::ShapePair")
+    spl = slice_func("libcola/shapepair.cpp", r'^bool ShapePair::operator<\(const ShapePair& rhs\) const', "ShapePair::operator<")
+    sp_cxx = ("#include <verif_base.h>\nnamespace cola {\n" + spc.text + ";\n" + spk.text + "\n" + spl.text + "\n}\n"
+              'extern "C" int w_pair_less(unsigned a1, unsigned a2, unsigned b1, unsigned b2) { cola::ShapePair a(a1, a2), b(b1, b2); return (a < b) ? 1 : 0; }\n')
+    js.append(Job("ShapePair_order", "U", spec, "h_pair_less", cxx=sp_cxx, defines=["JOB_pair_less"], slices=[spc, spk, spl], replay=replay_c08,
+                  domain="every two pairs of distinct indices below 2^16 (the class stores unsigned short), given in either order",
+                  expect=[r'h_pair_less\.assertion']))
     return js
 
 
@@ -274,7 +297,7 @@ ASSUMPTIONS = [
     "(ClusterContainmentConstraints::generateSeparationConstraints) and (2) the body of NonOverlapConstraints::generateSeparationConstraints for one pair of plain shapes.  "
     "Also under contract: the containment constructor's loop body for one CHILD CLUSTER (four entries, order free). Not under any obligation: the entries the constructor "
     "builds for member NODES (std::set iteration), pairs in which a shape stands "
-    "for a cluster, the pair list itself (std::list, exemptions, every pair present), makeFeasible's choice among the four directions, the descent loop ending in a projection "
+    "for a cluster, the pair list itself (std::list, every pair present; of the exemption set only its key order ShapePair::operator< is under contract), makeFeasible's choice among the four directions, the descent loop ending in a projection "
     "(see C07), cluster bounding boxes, and hence 'no two rectangles overlap' / containment in the result",
     "non-overlap pair job: plain harness (goto-instrument --dfcc ran out of memory): three variables and rectangles with arbitrary contents, any two distinct indices, 0..3 "
     "earlier constraints; std::map<unsigned,OverlapShapeOffsets> behind a stand-in whose operator[] may only be asked for the pair's own indices; Rectangle::getCentreD and "
